@@ -394,7 +394,11 @@ func (req *SrvReq) Respond() {
 	/* queue the reply before the request is unregistered, so that a flush
 	 * that no longer finds the request cannot overtake its reply */
 	if (status & reqFlush) == 0 {
-		conn.reqout <- req
+		select {
+		case conn.reqout <- req:
+		case <-conn.done:
+			/* the connection is gone, nobody sends replies any more */
+		}
 	}
 
 	/* remove the request and all requests flushing it */
